@@ -134,6 +134,7 @@ class Model:
         self.H = {}   # slot -> (cifslot, Container object)
         self.L = {}   # slot -> (cifslot, Container object, Loop object)
         self.Lp = {}  # loop slot -> container slot it was obtained through (the handle aliases it)
+        self.I = {}   # iterator slot -> iterops.It
 
     def set_h(self, h, val):
         self.drop_h(h)
